@@ -10,7 +10,7 @@ from typing import Any, Dict, List, Tuple
 
 import sympy as sp
 
-from engine.absint import AbsObj, BoundRepoMethods, ModuleEnv, Opaque
+from engine.absint import AbsObj, BoundRepoMethods, ModuleEnv, Opaque, OpaqueTuple
 from engine.exprnorm import equal, fun, sym
 from engine.index import AnalysisError
 from engine.pyinterp import Function, Interp, InterpRaised, Record, Stub, StubCall, Unsupported
@@ -242,7 +242,7 @@ def stored_errors(chk, cls_info, fit, gem) -> Dict[str, Any]:
         if isinstance(res, Record):
             return Record(res._cls, dict(zip(res._cls.fields, toks)))
         return tuple(toks)
-    for name, val in (("_initialize_data", lambda *a, **k: (Opaque("df_meter"), Opaque("dropped"))), ("_combinations", lambda *a, **k: [combo]),
+    for name, val in (("_initialize_data", lambda *a, **k: OpaqueTuple(2, "initialized")), ("_combinations", lambda *a, **k: [combo]),
                       ("_components", lambda *a, **k: combo.split("__")), ("_fit_components", lambda *a, **k: me.fit_components),
                       ("_best_combination", lambda *a, **k: combo), ("_final_fit", lambda *a, **k: Opaque("model")),
                       ("_create_params_from_fit_model", lambda *a, **k: Opaque("params")), ("_get_error_metrics", get_metrics)):
